@@ -417,6 +417,40 @@ func checkText(c textCase) pbt.Result {
 	}
 	if string(data) != input {
 		r.Fail = pbt.Failf("input-modified", "the parser modified the caller's byte slice")
+		return r
+	}
+	// The same with version fixers: one that canonicalises nothing but rejects some versions, one that
+	// rejects everything. Whatever they say, the parsers return a result or a positioned error list.
+	for _, fx := range []struct {
+		name string
+		fix  modfile.VersionFixer
+	}{
+		{"a fixer that rejects versions containing 1", func(path, vers string) (string, error) {
+			if strings.Contains(vers, "1") {
+				return "", fmt.Errorf("fixer: no version %q of %q", vers, path)
+			}
+			return vers, nil
+		}},
+		{"a fixer that rejects every version", func(path, vers string) (string, error) { return "", fmt.Errorf("fixer: rejected") }},
+	} {
+		g1, e1 := modfile.Parse("go.mod", append([]byte(nil), data...), fx.fix)
+		g2, e2 := modfile.ParseLax("go.mod", append([]byte(nil), data...), fx.fix)
+		g3, e3 := modfile.ParseWork("go.work", append([]byte(nil), data...), fx.fix)
+		for _, x := range []struct {
+			name string
+			nilF bool
+			err  error
+		}{{"Parse", g1 == nil, e1}, {"ParseLax", g2 == nil, e2}, {"ParseWork", g3 == nil, e3}} {
+			what := x.name + " with " + fx.name
+			if x.nilF == (x.err == nil) {
+				r.Fail = pbt.Failf("result-xor-error", "%s returned file==nil:%v err:%v", what, x.nilF, x.err)
+				return r
+			}
+			if f := checkErrPositions(input, x.err, what, nil); f != nil {
+				r.Fail = f
+				return r
+			}
+		}
 	}
 	return r
 }
